@@ -29,6 +29,15 @@ func vpInit() {
 
 func VerifSetup_Pipe() { vpInit() }
 
+// vpCopyVS: an independent copy of a query (the handlers build a fresh one per request; the resolvers
+// modify the slices in place, so a plain struct copy would let one request disturb the next).
+func vpCopyVS(vs common.DefineVarStruct) common.DefineVarStruct {
+	c := vs
+	c.StrVec = append([]string(nil), vs.StrVec...)
+	c.IsFuncVec = append([]bool(nil), vs.IsFuncVec...)
+	return c
+}
+
 func vpLoad(p *AllProject, name string, src []byte) *results.FileStruct {
 	f := results.CreateFileStruct(name)
 	hr, _, _ := p.analysisFirstLuaFile(f, name, src, true, false)
@@ -39,15 +48,50 @@ func vpLoad(p *AllProject, name string, src []byte) *results.FileStruct {
 
 // vpProject analyses the given files (first pass per file, then type map and global merge).
 func vpProject(names []string, srcs [][]byte) (*AllProject, []*results.FileStruct) {
+	// a workspace folder is always open: the directory that contains the first file (files analysed while no
+	// folder is set are treated as lying outside the workspace, which no request on a workspace file meets)
+	dm := common.GConfig.GetDirManager()
+	if dm.GetMainDir() == "" && len(names) > 0 {
+		dir := names[0]
+		for i := len(dir) - 1; i >= 0; i-- {
+			if dir[i] == '/' {
+				dir = dir[:i]
+				break
+			}
+		}
+		dm.SetVSRootDir(dir)
+		dm.InitMainDir()
+	}
 	p := CreateAllProject(names, nil, nil)
 	fs := make([]*results.FileStruct, len(names))
 	for i := range names {
 		fs[i] = vpLoad(p, names[i], srcs[i])
 	}
+	// the rest of HandleCheck, with the same case distinction
 	p.rebuidCreateTypeMap()
-	p.HandleNotCheckThirdFile()
+	if len(p.entryFilesList) == 0 && !common.GConfig.IsSpecialCheck() {
+		p.setCheckTerm(results.CheckTermThird)
+		p.HandleNotCheckThirdFile()
+	} else {
+		p.setCheckTerm(results.CheckTermSecond)
+		p.HandleAllSecondProject()
+		p.setCheckTerm(results.CheckTermThird)
+		p.HandleAllThirdFile()
+	}
+	p.rebuidCreateTypeMap()
+	p.checkAllAnnotate()
+	p.checkAllAnnotateEnum()
+	if vpOpenAll {
+		// after an edit: didChange re-analyses
+		// the text in real-time mode and keeps that analysis in the cache the position-based requests use (didOpen alone does not)
+		for i := range names {
+			p.HandleFileChangeAnalysis(names[i], srcs[i])
+		}
+	}
 	return p, fs
 }
+
+var vpOpenAll = false // true: the state after an edit (didChange) has re-analysed every file in real-time mode
 
 // ---------------------------------------------------------------- reference binder
 
